@@ -775,6 +775,7 @@ mod sync {
                         #[cfg(ohkami_verif)] crate::__verif__::sched("p12-");
                         if CATCH.load(Ordering::SeqCst) {
                             /* already interrupted: don't let a ready `task` (a queued connection) win again */
+                            #[cfg(ohkami_verif)] crate::__verif__::sched("p.ready");
                             return Poll::Ready(None)
                         }
                         match unsafe {Pin::new_unchecked(&mut self.get_unchecked_mut().0)}.poll(cx) {
